@@ -337,14 +337,10 @@ void do_printf_ints(S &sink, char t, format_options opts,
 			FRG_ASSERT(szmod == printf_size_mod::default_size);
 			number = pop_arg<int>(vsp, &opts);
 		}
-		if(opts.precision && *opts.precision == 0 && !number) {
-			// print nothing in this case
-		}else{
-			_fmt_basics::print_int(sink, number, 10, opts.minimum_width,
-					opts.precision ? *opts.precision : 1, opts.fill_zeros ? '0' : ' ',
-					opts.left_justify, opts.group_thousands, opts.always_sign,
-					opts.plus_becomes_space, false, locale_opts);
-		}
+		_fmt_basics::print_int(sink, number, 10, opts.minimum_width,
+				opts.precision ? *opts.precision : 1, opts.fill_zeros ? '0' : ' ',
+				opts.left_justify, opts.group_thousands, opts.always_sign,
+				opts.plus_becomes_space, false, locale_opts);
 	} break;
 	case 'b':
 	case 'B' : {
@@ -352,14 +348,10 @@ void do_printf_ints(S &sink, char t, format_options opts,
 			if (number && opts.alt_conversion)
 				sink.append(t == 'b' ? "0b" : "0B");
 
-			if(opts.precision && *opts.precision == 0 && !number) {
-				// print nothing in this case
-			}else{
-				_fmt_basics::print_int(sink, number, 2, opts.minimum_width,
-						opts.precision ? *opts.precision : 1, opts.fill_zeros ? '0' : ' ',
-						opts.left_justify, false, opts.always_sign, opts.plus_becomes_space,
-						false, locale_opts);
-			}
+			_fmt_basics::print_int(sink, number, 2, opts.minimum_width,
+					opts.precision ? *opts.precision : 1, opts.fill_zeros ? '0' : ' ',
+					opts.left_justify, false, opts.always_sign, opts.plus_becomes_space,
+					false, locale_opts);
 		};
 
 		if(szmod == printf_size_mod::char_size) {
@@ -384,14 +376,10 @@ void do_printf_ints(S &sink, char t, format_options opts,
 			if (number && opts.alt_conversion)
 				sink.append('0');
 
-			if(opts.precision && *opts.precision == 0 && !number) {
-				// print nothing in this case
-			}else{
-				_fmt_basics::print_int(sink, number, 8, opts.minimum_width,
-						opts.precision ? *opts.precision : 1, opts.fill_zeros ? '0' : ' ',
-						opts.left_justify, false, opts.always_sign, opts.plus_becomes_space,
-						false, locale_opts);
-			}
+			_fmt_basics::print_int(sink, number, 8, opts.minimum_width,
+					opts.precision ? *opts.precision : 1, opts.fill_zeros ? '0' : ' ',
+					opts.left_justify, false, opts.always_sign, opts.plus_becomes_space,
+					false, locale_opts);
 		};
 
 		if(szmod == printf_size_mod::char_size) {
@@ -417,14 +405,10 @@ void do_printf_ints(S &sink, char t, format_options opts,
 			if (number && opts.alt_conversion)
 				sink.append(t == 'x' ? "0x" : "0X");
 
-			if(opts.precision && *opts.precision == 0 && !number) {
-				// print nothing in this case
-			}else{
-				_fmt_basics::print_int(sink, number, 16, opts.minimum_width,
-						opts.precision ? *opts.precision : 1, opts.fill_zeros ? '0' : ' ',
-						opts.left_justify, false, opts.always_sign, opts.plus_becomes_space,
-						t == 'X', locale_opts);
-			}
+			_fmt_basics::print_int(sink, number, 16, opts.minimum_width,
+					opts.precision ? *opts.precision : 1, opts.fill_zeros ? '0' : ' ',
+					opts.left_justify, false, opts.always_sign, opts.plus_becomes_space,
+					t == 'X', locale_opts);
 		};
 
 		if(szmod == printf_size_mod::char_size) {
@@ -447,14 +431,10 @@ void do_printf_ints(S &sink, char t, format_options opts,
 	case 'u': {
 		auto print = [&] (auto number) {
 			FRG_ASSERT(!opts.alt_conversion);
-			if(opts.precision && *opts.precision == 0 && !number) {
-				// print nothing in this case
-			}else{
-				_fmt_basics::print_int(sink, number, 10, opts.minimum_width,
-						opts.precision ? *opts.precision : 1, opts.fill_zeros ? '0' : ' ',
-						opts.left_justify, opts.group_thousands, opts.always_sign,
-						opts.plus_becomes_space, false, locale_opts);
-			}
+			_fmt_basics::print_int(sink, number, 10, opts.minimum_width,
+					opts.precision ? *opts.precision : 1, opts.fill_zeros ? '0' : ' ',
+					opts.left_justify, opts.group_thousands, opts.always_sign,
+					opts.plus_becomes_space, false, locale_opts);
 		};
 
 		if(szmod == printf_size_mod::char_size) {
